@@ -376,6 +376,11 @@ class PrettyPrinter:
         if isinstance(value, bool):
             return str(value).upper()
 
+        if "allOf" in attr_props and len(attr_props["allOf"]) == 1:
+            # a single schema wrapped in allOf (used to attach version metadata
+            # to a $ref) describes the value in the same way as the schema itself
+            attr_props = attr_props["allOf"][0]
+
         if any(i in ["enum"] for i in attr_props):
             if isinstance(value, dict) and not value:
                 raise ValueError(
